@@ -8,6 +8,7 @@ Model/Pools12.v on the same inputs):
   pools     build a pool family (constructor + setters), build_index_by_delegation_id,
             generate_delegations_by_node_id, incorporate_delegation of everything generated (two node orders)
   inc       decode per-node documents and incorporate them in a given order (consistent and inconsistent)
+  hist      ONE Pools object: multi-step histories (index, edit / re-delegate / replace, re-index, generate, regroup)
   annotate  pools + single delegations -> annotate_delegations_and_pools on a real NetworkX ARM graph (or
             Topology.single_delegation) -> node properties -> get_delegations -> incorporate
 Each stream has an oracle that restates the property over implementation observables only."""
@@ -1452,6 +1453,319 @@ class Annotate(Stream):
 
 
 # ------------------------------------------------------------------------------------------------
+# stream hist: ONE Pools object, multi-step histories
+# ------------------------------------------------------------------------------------------------
+
+def c_hop(op, dets):
+    k = op[0]
+    if k == 'new':
+        return '(HNew %s)' % c_pspec(op[1], dets)
+    if k == 'pool':
+        return '(HPool %s %s)' % (cnat(op[1]), c_pool_op(op[2], dets))
+    if k == 'add':
+        return '(HAdd %s)' % cnat(op[1])
+    if k == 'inc':      # dets = the observed delegations that were handed to incorporate_delegation
+        return '(HInc %s %s %s)' % (cstr(op[1]), c_ty(op[2]), clist([c_deleg_obs(d) for d in dets]))
+    return {'index': 'HIndex', 'generate': 'HGenerate', 'regroup': 'HRegroup'}[k]
+
+
+def c_deleg_obs(d):
+    """observation [type, id, format, pool, details] of a real Delegation -> deleg term"""
+    return '(mkD %s %s %s %s %s)' % ('TCap' if d[0] == 1 else 'TLab', cstr(d[1]), {1: 'FDef', 2: 'FRef', 3: 'FSingle'}[d[2]],
+                                     c_optstr(d[3]), 'None' if d[4] is None else '(Some %s)' % c_det_obs(d[4]))
+
+
+def apply_pool_op(p, op):
+    """one setter call on a Pool object -> (outcome, details observation)"""
+    det = None
+    try:
+        if op[0] == 'deleg':
+            p.set_delegation_id(delegation_id=op[1])
+        elif op[0] == 'on':
+            p.set_defined_on(op[1])
+        elif op[0] == 'setfor':
+            p.set_defined_for(list(op[1]))
+        elif op[0] == 'add1':
+            p.add_defined_for(op[1])
+        elif op[0] == 'addl':
+            p.add_defined_for(list(op[1]))
+        elif op[0] == 'details':
+            obj = mk_obj(op[1], op[2])
+            det = obs_det(obj)
+            p.set_pool_details(obj)
+        return True, det
+    except Exception as e:
+        return err(e), det
+
+
+def judge_generated(ty, P, g, regs):
+    """the regrouping clause for a registry P (canonical pools), its generated family g and the read-backs regs"""
+    exp = family_expectation(ty, P)
+    if exp in ('conflict', 'mismatch', 'reserved'):
+        if not (is_err(g) and g['err'] == 'DelegationException'):
+            return 'regroup %s not rejected' % exp
+        return None
+    if is_err(g):
+        return 'generate refused a well-formed family: ' + g['err']
+    expg = expected_gmap(ty, P)
+    gotg = {n: {d[1]: d for d in ds[1]} for n, ds in g[0]}
+    if any(len(ds[1]) != len(gotg[n]) for n, ds in g[0]):
+        return 'duplicate delegation ids on a node'
+    if gotg != expg:
+        return 'per-node delegations differ from one definition on the defining node + one reference per node of for_'
+    for r in regs:
+        if is_err(r):
+            return 'reading the generated delegations back raised ' + r['err']
+        if r[0] != P:
+            return 'pools -> per-node delegations -> pools is not the identity: %r vs %r' % (r[0], P)
+    return None
+
+
+class Hist(Stream):
+    name = 'hist'
+    header = HEADER.replace('Model.Pools12.', 'Model.Pools12 Model.Pools12H.')
+    case_type = '(dtype * list hop) * val'
+    check_fn = 'check_hist'
+    rule = ('histories of 6..16 operations on ONE Pools object over shared Pool objects: Pool(...), setters on any object '
+            '(re-delegation with set_delegation_id, defined_on / defined_for edits, details), add_pool (incl. replacing a pool '
+            'under the same pool id), incorporate_delegation into the object itself, build_index_by_delegation_id (repeatedly), generate_delegations_by_node_id (also with a '
+            'stale index), regroup (generate + incorporate into a fresh Pools, two node orders); non-trivial = the index was '
+            'built at least twice with an edit in between; distinct by case value')
+
+    def gen(self, rng, tier):
+        self.shard = 130 if tier == 'quick' else 400
+        n = 300 if tier == 'quick' else 3000
+        out = []
+        for _ in range(n):
+            ty = rng.choice([CAP, LAB])
+            ops, nobj, registered = [], 0, []
+            pids = rng.sample(PNAMES[:4], rng.choice([1, 2, 2, 3]))
+            for pid in pids:
+                ops.append(['new', gen_pool_spec(rng, ty, pid, rng.choice(IDS[:3]), wf=rng.random() < 0.9)])
+                ops.append(['add', nobj])
+                registered.append(nobj)
+                nobj += 1
+            ops.append(['index'])
+            if rng.random() < 0.5:
+                ops.append(rng.choice([['generate'], ['regroup']]))
+            for _ in range(rng.choice([1, 1, 2, 3])):
+                r = rng.randrange(8)
+                k = rng.choice(registered)
+                if r <= 1:      # move an indexed pool to another delegation id
+                    ops.append(['pool', k, ['deleg', rng.choice(IDS[:4])]])
+                elif r == 2:    # replace a pool by a new object under the same pool id
+                    ops.append(['new', gen_pool_spec(rng, ty, rng.choice(pids), rng.choice(IDS[:3]), wf=rng.random() < 0.9)])
+                    ops.append(['add', nobj])
+                    registered.append(nobj)
+                    nobj += 1
+                elif r == 3:    # a further pool
+                    pid = rng.choice(PNAMES[:5])
+                    ops.append(['new', gen_pool_spec(rng, ty, pid, rng.choice(IDS[:3]), wf=True)])
+                    ops.append(['add', nobj])
+                    registered.append(nobj)
+                    if pid not in pids:
+                        pids.append(pid)
+                    nobj += 1
+                elif r == 4:
+                    ops.append(['pool', k, rng.choice([['add1', rng.choice(NODES)], ['on', rng.choice(NODES)],
+                                                       ['setfor', rng.sample(NODES, 2)]])])
+                elif r == 5:
+                    ops.append(['pool', k, ['details', ty, gen_details(rng, ty)]])
+                elif r == 6 and rng.random() < 0.5:     # add the same object again (no change)
+                    ops.append(['add', k])
+                else:           # incorporate_delegation into this very object: references / definitions from a node
+                    dty = ty if rng.random() < 0.9 else (LAB if ty == CAP else CAP)
+                    sps = []
+                    for i in rng.sample(IDS[:4], rng.choice([1, 2])):
+                        fmt = rng.choice(['ref', 'ref', 'def', 'single'])
+                        pool = None if fmt == 'single' else rng.choice(pids + ['fresh_pool'])
+                        sps.append({'type': dty, 'id': i, 'fmt': fmt, 'pool': pool,
+                                    'details': None if fmt == 'ref' else [dty, gen_details(rng, dty)]})
+                    ops.append(['inc', rng.choice(NODES), dty, sps])
+                if rng.random() < 0.15:
+                    ops.append(rng.choice([['generate'], ['regroup']]))      # with a stale index
+            ops.append(['index'])
+            ops.append(['generate'])
+            ops.append(['regroup'])
+            out.append({'ty': ty, 'ops': ops})
+        return out
+
+    def corpus(self):
+        lv = lambda v: [['details', LAB, [['vlan_range', v]]]]
+        p1 = {'ptype': LAB, 'pid': 'pool1', 'did': 'del1', 'on': 'node-1', 'for': ['node-2', 'node-3'], 'ops': lv('1-100')}
+        p2 = {'ptype': LAB, 'pid': 'pool2', 'did': 'del2', 'on': 'node-2', 'for': ['node-1'], 'ops': lv('101-200')}
+        p2b = {'ptype': LAB, 'pid': 'pool2', 'did': 'del2', 'on': 'node-3', 'for': ['node-4'], 'ops': lv('7-8')}
+        return [
+            # re-delegate an indexed pool, re-index
+            {'ty': LAB, 'ops': [['new', p1], ['new', p2], ['add', 0], ['add', 1], ['index'],
+                                ['pool', 0, ['deleg', 'del9']], ['index'], ['generate'], ['regroup']]},
+            # replace an indexed pool by a new object under the same pool id, re-index
+            {'ty': LAB, 'ops': [['new', p1], ['new', p2], ['add', 0], ['add', 1], ['index'],
+                                ['new', p2b], ['add', 2], ['index'], ['generate'], ['regroup']]},
+        ] + [c for c in load_corpus('hist')]
+
+    def observe(self, case):
+        D, CL = lib()
+        ty = case['ty']
+        ps = D.Pools(atype=T(ty))
+        objs, outs, dets, snaps = [], [], [], []
+        handles, heap_n = [], 0          # position of the case's k-th Pool object in the model's heap (pools that
+        for op in case['ops']:           # incorporate_delegation creates on its own take positions too)
+            det, snap = None, None
+            if op[0] == 'new':
+                p, o, det = build_pool(op[1])
+                objs.append(p)
+                handles.append(heap_n)
+                heap_n += 1
+            elif op[0] == 'pool':
+                o, det = apply_pool_op(objs[op[1]], op[2])
+                det = [det]
+            elif op[0] == 'add':
+                try:
+                    ps.add_pool(pool=objs[op[1]])
+                    o = True
+                except Exception as e:
+                    o = err(e)
+            elif op[0] == 'inc':
+                ds = D.Delegations(atype=T(op[2]))
+                for sp in op[3]:
+                    d = D.Delegation(atype=T(sp['type']), delegation_id=sp['id'], aformat=F(sp['fmt']), pool_id=sp['pool'])
+                    if sp['details'] is not None:
+                        d.set_details(mk_obj(sp['details'][0], sp['details'][1]))
+                    ds.add_delegations(d)
+                det = obs_delegations(ds)[1]
+                before = len(ps.pool_by_id)
+                try:
+                    ps.incorporate_delegation(node_id=op[1], deleg=ds)
+                    o = True
+                except Exception as e:
+                    o = err(e)
+                heap_n += len(ps.pool_by_id) - before
+            elif op[0] == 'index':
+                snap = obs_pools(ps)
+                try:
+                    ps.build_index_by_delegation_id()
+                    o = [[[k, [p.pool_id for p in v]] for k, v in ps.pools_by_delegation.items()]]
+                except Exception as e:
+                    o = err(e)
+            else:
+                snap = {'P': obs_pools(ps), 'regs': []}
+                try:
+                    g = ps.generate_delegations_by_node_id()
+                    snap['g'] = [obs_gmap(g)]
+                except Exception as e:
+                    g = None
+                    snap['g'] = err(e)
+                if op[0] == 'generate':
+                    o = snap['g']
+                elif g is None:
+                    o = snap['g']
+                else:
+                    for order in (list(g.items()), sorted(g.items(), reverse=True)):
+                        ps1 = D.Pools(atype=T(ty))
+                        try:
+                            for n, d in order:
+                                ps1.incorporate_delegation(node_id=n, deleg=d)
+                            snap['regs'].append([obs_pools(ps1)])
+                        except Exception as e:
+                            snap['regs'].append(err(e))
+                    o = snap['regs'][0]
+            outs.append(o)
+            dets.append(det)
+            snaps.append(snap)
+        return {'outs': outs, 'final': obs_pools(ps), 'dets': dets, 'snaps': snaps, 'handles': handles}
+
+    def to_coq(self, case, o):
+        terms = []
+        for op, det in zip(case['ops'], o['dets']):
+            if op[0] == 'pool':
+                terms.append('(HPool %s %s)' % (cnat(o['handles'][op[1]]), c_pool_op(op[2], det[0])))
+            elif op[0] == 'add':
+                terms.append('(HAdd %s)' % cnat(o['handles'][op[1]]))
+            else:
+                terms.append(c_hop(op, det))
+        return '((%s, %s), %s)' % (c_ty(case['ty']), clist(terms), py_val([o['outs'], o['final']]))
+
+    def oracle(self, case, o):
+        ty = case['ty']
+        fresh = False          # the index was built from the registry as it is now
+        for op, out, snap in zip(case['ops'], o['outs'], o['snaps']):
+            if op[0] in ('pool', 'add', 'inc'):
+                fresh = False
+            elif op[0] == 'index':
+                P = snap
+                if family_expectation(ty, P) == 'invalid':
+                    if not (is_err(out) and out['err'] == 'PoolException'):
+                        return 'an incomplete pool was indexed'
+                    fresh = False
+                    continue
+                if is_err(out):
+                    return 'build_index refused complete pools: ' + out['err']
+                got = sorted((k, pid) for k, pids in out[0] for pid in pids)
+                if got != sorted((p[2], p[1]) for p in P):
+                    return ('after build_index the by-delegation index %r is not the index of the current registry %r '
+                            '(every pool once, under its own delegation id)' % (got, sorted((p[2], p[1]) for p in P)))
+                fresh = True
+            elif op[0] in ('generate', 'regroup') and fresh:
+                why = judge_generated(ty, snap['P'], snap['g'], snap['regs'])
+                if why:
+                    return why
+        return None
+
+    def key(self, case, o):
+        idx = [i for i, op in enumerate(case['ops']) if op[0] == 'index']
+        if len(idx) >= 2 and any(op[0] in ('pool', 'add', 'inc') for op in case['ops'][idx[0]:idx[-1]]):
+            return stable_hash(case)
+        return None
+
+    def histogram(self, cases, obs):
+        h = {'index_calls': 0, 'index_refused': 0, 'redelegations': 0, 'replacements': 0, 'stale_generate': 0,
+             'generate_refused': 0, 'incorporate_into_self': 0, 'ops': 0}
+        for c, o in zip(cases, obs):
+            seen_pids, fresh = {}, False
+            for op, out in zip(c['ops'], o['outs']):
+                h['ops'] += 1
+                if op[0] == 'index':
+                    h['index_calls'] += 1
+                    h['index_refused'] += is_err(out)
+                    fresh = not is_err(out)
+                elif op[0] == 'pool':
+                    h['redelegations'] += op[2][0] == 'deleg'
+                    fresh = False
+                elif op[0] in ('add', 'inc'):
+                    h['incorporate_into_self'] += op[0] == 'inc'
+                    fresh = False
+                elif op[0] in ('generate', 'regroup'):
+                    h['stale_generate'] += not fresh
+                    h['generate_refused'] += is_err(out)
+            news = [op[1]['pid'] for op in c['ops'] if op[0] == 'new']
+            h['replacements'] += len(news) - len(set(news))
+        return h
+
+    def describe(self, case, o):
+        return {'case': case, 'impl': {'outs': o['outs'], 'final': o['final']}}
+
+    def shrink(self, case, failing):
+        # removing a 'new' would shift the object numbers: only remove the other operations, then trim defined_for
+        case = copy.deepcopy(case)
+        changed = True
+        while changed:
+            changed = False
+            for i, op in enumerate(case['ops']):
+                if op[0] == 'new':
+                    continue
+                cand = dict(case, ops=case['ops'][:i] + case['ops'][i + 1:])
+                try:
+                    bad = failing(cand)
+                except Exception:
+                    bad = False
+                if bad:
+                    case, changed = cand, True
+                    break
+        return case
+
+
+# ------------------------------------------------------------------------------------------------
 def load_corpus(stream):
     d = os.path.join(VERIF, 'corpus', 'C12')
     out = []
@@ -1464,8 +1778,8 @@ def load_corpus(stream):
 class C12(Check):
     pid = 'C12'
     translators = ['gen_deleg']
-    model_targets = ['Model/Deleg12.vo', 'Model/Pools12.vo']
-    streams = [Ops(), Json(), PoolsS(), Inc(), Annotate()]
+    model_targets = ['Model/Deleg12.vo', 'Model/Pools12.vo', 'Model/Pools12H.vo']
+    streams = [Ops(), Json(), PoolsS(), Inc(), Annotate(), Hist()]
     trusted_base = [
         'Coq 8.16.1 kernel (coqc), vm_compute for the correspondence evaluation; no native_compute',
         'Print Assumptions of every C12 theorem: Closed under the global context (no axioms)',
